@@ -1,6 +1,32 @@
 package stateless
 
-var vrfEntries = map[string]func(){"VrfC15Stateless": VrfC15Stateless}
+import "strconv"
+
+var vrfEntries = map[string]func(){"VrfC15Stateless": VrfC15Stateless, "VrfC15StatelessEnv": VrfC15StatelessEnv}
+
+// VrfC15StatelessEnv: both settings supplied (or not) through environment
+// variables on top of an arbitrary valid configuration. A zero means "keep".
+func VrfC15StatelessEnv() {
+	cfg := &Config{MaxPinQueueSize: vrf_nondet_int("max_pin_queue_size"), ConcurrentPins: vrf_nondet_int("concurrent_pins")}
+	vrf_assume(cfg.Validate() == nil)
+	before := *cfg
+	setQ, valQ := vrf_nondet_bool("env_set_MaxPinQueueSize"), vrf_nondet_int("env_MaxPinQueueSize")
+	setC, valC := vrf_nondet_bool("env_set_ConcurrentPins"), vrf_nondet_int("env_ConcurrentPins")
+	vrf_env(envConfigKey, "MaxPinQueueSize", setQ, strconv.Itoa(valQ))
+	vrf_env(envConfigKey, "ConcurrentPins", setC, strconv.Itoa(valC))
+	err := cfg.ApplyEnvVars()
+	want := Config{
+		MaxPinQueueSize: vrf_ite_int(vrf_and(setQ, valQ != 0), valQ, before.MaxPinQueueSize),
+		ConcurrentPins:  vrf_ite_int(vrf_and(setC, valC != 0), valC, before.ConcurrentPins),
+	}
+	if err == nil {
+		vrf_assert(vrf_and(cfg.MaxPinQueueSize == want.MaxPinQueueSize, cfg.ConcurrentPins == want.ConcurrentPins), "C15.stateless.env-in-effect")
+		vrf_assert(cfg.Validate() == nil, "C15.stateless.env-accepted-implies-valid")
+	} else {
+		vrf_assert(want.Validate() != nil, "C15.stateless.env-valid-accepted")
+	}
+	vrf_reach("C15.stateless.env-end")
+}
 
 func VrfC15Stateless() {
 	d := &Config{}
